@@ -17,6 +17,7 @@ PROP = "C03"
 BATCH = 512
 BUDGET_S = {"quick": 130, "thorough": 1800}
 MAX_RUNS = {"quick": 600, "thorough": 10**9}
+MIN_RUNS = {"quick": 250, "thorough": 2000}  # random runs executed even when the systematic part used up the budget
 ENV0 = {"hashseed": 0, "cache": 1000}
 ENVS = [ENV0, {"hashseed": 1, "cache": 1000}, {"hashseed": 7, "cache": 25}, {"hashseed": 42, "cache": 1000}]
 REL_EQ = 1e-11
@@ -322,7 +323,11 @@ def systematic_jobs(tier: str, seed: int, ctx) -> list[dict]:
                 # this placement also carries a creation history: the user's own wrappers whose printed
                 # names coincide with catalogue ones, a few functions, quantities and coordinate systems
                 extra = [{"op": "create", "kind": "Symbolic", "k": 1}, {"op": "create", "kind": "Function", "k": 3}, {"op": "create", "kind": "CoordinateSystem", "k": 2}]
-            ops = list(pre) + extra + [{"op": "jump", "prefix": "SYM", "to": to_sym}, {"op": "jump", "prefix": "FUN", "to": to_fun}, {"op": "jump", "prefix": "QTY", "to": to_qty}, {"op": "observe", "m": m, "tests": tier == "thorough" and v < 3}]
+            # 999 and 99997: the jump comes first, so the module's *dependencies* are imported at the
+            # boundary too (as part of the module's own import); the others import the dependencies first
+            # so that the boundary falls inside the module's own allocation
+            first = list(pre) if to_sym not in (999, 99997) else []
+            ops = first + extra + [{"op": "jump", "prefix": "SYM", "to": to_sym}, {"op": "jump", "prefix": "FUN", "to": to_fun}, {"op": "jump", "prefix": "QTY", "to": to_qty}, {"op": "observe", "m": m, "tests": tier == "thorough" and v < 3}]
             jobs.append(_job(seed, f"sys:{i}:{v}", ENV0, ops))
         # the module is imported first, *then* the user creates objects of their own (wrappers, symbols,
         # functions, quantities whose display names coincide with catalogue ones), then the module is used
